@@ -438,11 +438,14 @@ func (self *VM) spawnCoreInternal(
 func (self *VM) WaitNonConsuming() {
 	for {
 		self.Cores.Lock.RLock()
-		defer self.Cores.Lock.RUnlock()
+		numCores := len(self.Cores.Cores)
+		self.Cores.Lock.RUnlock()
 
-		if len(self.Cores.Cores) == 0 {
+		if numCores == 0 {
 			break
 		}
+
+		time.Sleep(VMWaitIdleSleep)
 	}
 }
 
